@@ -15,22 +15,22 @@ func miscRules() []*Rule {
 		{ID: "RANGE", Props: []string{"C13", "C03"}, Min: 8,
 			Doc: "cut-off tables of the low-level scans: ScanEq stops (without the user callback) at the first record not Equal to the key it searched with; ScanRange stops at the first record not less than `to`; ScanMin/Scan forward every record",
 			Run: runRange},
-		{ID: "KEY", Props: []string{"C03"}, Min: 14,
+		{ID: "KEY", Props: []string{"C03", "C02", "C11", "C13"}, Min: 14,
 			Doc: "asDbKey: key column i takes direction and collation from index column i (validated against CollateFuncs before use), each accepted Go type maps to one of the five storage types, too many columns is an error",
 			Run: runKey},
 		{ID: "PKSEL", Props: []string{"C03", "C04"}, Min: 4,
 			Doc: "primary-key dispatch: rowid alias ⇒ rowid lookup with key[0].(int64); otherwise the index named by Schema.PrimaryKey with a key typed by that index's columns; WITHOUT ROWID ⇒ ScanEq on the table with a key typed by Schema.PK",
 			Run: runPKSel},
-		{ID: "IDXCOL", Props: []string{"C10", "C03", "C02"}, Min: 3,
+		{ID: "IDXCOL", Props: []string{"C10", "C03", "C02", "C11"}, Min: 3,
 			Doc: "indexed-column collation: the index's own COLLATE if it names one, else the table column's declared collation looked up case-insensitively",
 			Run: runIdxCol},
 		{ID: "ROWIDALIAS", Props: []string{"C10", "C01"}, Min: 5,
 			Doc: "rowid-alias table: INTEGER ∧ (table constraint ∨ ASC); call sites pass the right flag and are guarded by !WITHOUT ROWID; a single-column PK only",
 			Run: runRowidAlias},
-		{ID: "ROWMAP", Props: []string{"C01", "C02"}, Min: 5,
+		{ID: "ROWMAP", Props: []string{"C01", "C02", "C04", "C14", "C18"}, Min: 5,
 			Doc: "record→row mapping: rowid columns get the rowid, columns beyond the record get the column DEFAULT, others record[rowIndex]; rowid/oid/_rowid_ resolve to the rowid only when no column has that name",
 			Run: runRowMap},
-		{ID: "CHOMP", Props: []string{"C02", "C03"}, Min: 4,
+		{ID: "CHOMP", Props: []string{"C02", "C03", "C11"}, Min: 4,
 			Doc: "index entry → table row: the rowid is the last field of the index record (an int64), the adapters look that rowid up and deliver the table row; WITHOUT ROWID adapters type the lookup key by the table's primary key",
 			Run: runChomp},
 		{ID: "ERR-3", Props: []string{"C12"}, Min: 4,
